@@ -239,3 +239,11 @@ package schedulerplugin
 //@   loop 0 invariant (!hasAllocated ==> forall j int {ipInfos[j]} :: 0 <= j && j < idx ==> ipInfos[j] == nil) && allocatedSubnets != nil && fresh(allocatedSubnets) && (unallocatedIPRange == nil || fresh(unallocatedIPRange)) && sameElems(unallocatedIPRange)
 //@   loop 0 invariant forall s string, j int {s in allocatedSubnets, ipInfos[j]} :: s in allocatedSubnets && 0 <= j && j < idx && ipInfos[j] != nil ==> s in ipInfos[j].NodeSubnets
 //@   loop 0 invariant forall u int {unallocatedIPRange[u]} :: 0 <= u && u < len(unallocatedIPRange) ==> exists j int :: 0 <= j && j < len(cniArgs.RequestIPRange) && unallocatedIPRange[u] == cniArgs.RequestIPRange[j]
+
+// ---- configuration reload (C20, C18): a text that is rejected is not recorded as applied ----
+//@ func [C20,C18] (*FloatingIPPlugin).ensureIPAMConf
+//@   requires lastConf != nil && p.ipam != nil && crd(p) != nil && crd(p).cacheLock != nil && crd(p).client != nil && held[ptr(crd(p).cacheLock)] == 0
+//@   ensures [C20:rejected-config-is-not-recorded] result1 != nil ==> *lastConf == old(*lastConf) && !result0
+//@   ensures [C20:applied-config-is-recorded] result1 == nil && result0 ==> *lastConf == newConf
+//@   ensures [C20:unchanged-text-is-a-noop] newConf == old(*lastConf) ==> !result0 && result1 == nil && *lastConf == old(*lastConf)
+//@   modifies all
